@@ -153,6 +153,20 @@ func init() {
 		}
 		return r
 	}
+	fprintTo := func(fr *frame, w iface, s value, what string) value {
+		i := fr.i
+		r, ok := i.callMethod(fr, w.t, w.v, "Write", i.conv(types.NewSlice(types.Typ[types.Byte]), types.Typ[types.String], s))
+		if !ok {
+			panic(unsupported{what + " to a writer without Write"})
+		}
+		return r
+	}
+	externals["fmt.Fprintln"] = func(fr *frame, a []value) value {
+		return fprintTo(fr, a[0].(iface), externals["fmt.Sprintln"](fr, a[1:]), "fmt.Fprintln")
+	}
+	externals["fmt.Fprint"] = func(fr *frame, a []value) value {
+		return fprintTo(fr, a[0].(iface), externals["fmt.Sprint"](fr, a[1:]), "fmt.Fprint")
+	}
 	externals["fmt.Println"] = func(fr *frame, a []value) value { return tuple{0, iface{}} }
 	externals["fmt.Printf"] = func(fr *frame, a []value) value { return tuple{0, iface{}} }
 	externals["fmt.Print"] = func(fr *frame, a []value) value { return tuple{0, iface{}} }
